@@ -20,6 +20,9 @@ Bound (stated in the evidence):
   collaborators    5 templates x an event manager raising at every event site / the store raising at every save, and the caller
                    cancelling the run at 6 points in time (termination, CancelledError only, nothing left behind)
 
+  execution modes  one pipeline with its middle node as coroutine / thread-pool / inline node (same result), and thread / process
+                   nodes with the pool never registered or shut down, with and without default (fails fast)
+
 Outside the family on purpose (genuine known findings of the unchanged tree, each with its own obligation and
 demonstration): candidates returning None, switch labels matching no case, a case node that another consumer also uses,
 a candidate that depends on another one-of's consumer, switch / one-of inside a recurrent subgraph, stores whose save
@@ -1005,6 +1008,101 @@ async def recurrent_overlapped():
         await settle(obs, 'recurrent-overlapped', 'two overlapped runs')
 
 
+async def modes():
+    """execution modes (C17): the same pipeline with a node run as coroutine / in the thread pool / inline (non_async) gives the
+    same result; without the pool it needs, a run fails fast: RuntimeError result, no node body invoked, even when the node
+    has a default; a pool that was shut down counts as missing"""
+    from concurrent.futures import ThreadPoolExecutor
+    from ml_pipeline_engine.node import NodeTag
+    from ml_pipeline_engine.parallelism import threads_pool_registry, process_pool_registry
+    counter = itertools.count(6000000)
+
+    def reset(reg):
+        try:
+            reg.shutdown()
+        except Exception:   # noqa: BLE001
+            pass
+        reg._pool_executor = None
+
+    def make(tag, mode, use_default, invoked):
+        class In(ProcessorBase):
+            name = f'{tag}_in'
+
+            async def process(self, x: int) -> int:
+                invoked.append('In')
+                return x
+
+        if mode == 'coroutine':
+            class Mid(ProcessorBase):
+                name = f'{tag}_mid'
+
+                async def process(self, v: Input(In)) -> int:
+                    invoked.append('Mid')
+                    return v * 2
+        else:
+            class Mid(ProcessorBase):
+                name = f'{tag}_mid'
+                tags = {'thread': (), 'non_async': (NodeTag.non_async,), 'process': (NodeTag.process,)}[mode]
+
+                def process(self, v: Input(In)) -> int:
+                    invoked.append('Mid')
+                    return v * 2
+        Mid.use_default = use_default
+        Mid.get_default = lambda self, **kw: -1
+
+        class Side(ProcessorBase):
+            name = f'{tag}_side'
+
+            async def process(self, v: Input(In)) -> int:
+                invoked.append('Side')
+                return v + 100
+
+        class Out(ProcessorBase):
+            name = f'{tag}_out'
+
+            async def process(self, m: Input(Mid), s: Input(Side)) -> int:
+                invoked.append('Out')
+                return m + s
+        return In, Out
+
+    for mode in ('coroutine', 'thread', 'non_async'):
+        reset(threads_pool_registry)
+        threads_pool_registry.register_pool_executor(ThreadPoolExecutor(max_workers=2))
+        N_CASES[0] += 1
+        tag = f'm{next(counter)}'
+        invoked = []
+        In, Out = make(tag, mode, False, invoked)
+        kind, res = await run_keyed(PipelineChart(f'bounded_{tag}', build_dag(In, Out)), 7, Obs())
+        if kind != 'done' or res.error is not None or res.value != 7 * 2 + 107:
+            fail('C17', 'modes', f'middle node run as {mode}, pool registered', f'{kind}: {res!r}', 'value=121 error=None in every mode')
+    for mode, state in itertools.product(('thread', 'process'), ('never registered', 'shut down')):
+        if mode == 'process' and state == 'shut down':
+            continue            # would need a real process pool
+        for use_default in (False, True):
+            reset(threads_pool_registry)
+            reset(process_pool_registry)
+            if state == 'shut down':
+                threads_pool_registry.register_pool_executor(ThreadPoolExecutor(max_workers=1))
+                threads_pool_registry.shutdown()
+            N_CASES[0] += 1
+            tag = f'm{next(counter)}'
+            invoked = []
+            In, Out = make(tag, mode, use_default, invoked)
+            case = f'{mode} node, pool {state}, use_default={use_default}'
+            try:
+                chart = PipelineChart(f'bounded_{tag}', build_dag(In, Out))
+            except Exception as e:   # noqa: BLE001
+                fail('C17', 'modes', case, f'build failed: {type(e).__name__}: {e}', 'builds')
+                continue
+            kind, res = await run_keyed(chart, 7, Obs())
+            ok = kind == 'done' and res.value is None and isinstance(res.error, RuntimeError) and not invoked
+            if not ok:
+                fail('C17', 'modes', case, f'{kind}: value={getattr(res, "value", None)!r} error={getattr(res, "error", res)!r} invoked={invoked}',
+                     'fails fast: RuntimeError result, no node body invoked')
+    reset(threads_pool_registry)
+    reset(process_pool_registry)
+
+
 # ----------------------------------------------------------------------------------------------------------------------
 # collaborators that raise, callers that cancel (C02, C13)
 # ----------------------------------------------------------------------------------------------------------------------
@@ -1116,6 +1214,8 @@ def _job(job):
         asyncio.run(retry_overlapped())
     elif kind == 'collab':
         asyncio.run(collab())
+    elif kind == 'modes':
+        asyncio.run(modes())
     else:
         asyncio.run(recurrent())
         asyncio.run(retry_in_recurrent())
@@ -1135,6 +1235,8 @@ def main():
         jobs.append(('recurrent', None))
     if only in (None, 'collab'):
         jobs.append(('collab', None))
+    if only in (None, 'modes'):
+        jobs.append(('modes', None))
     failures, cases = [], 0
     import concurrent.futures as cf
     import multiprocessing as mp
